@@ -311,11 +311,36 @@ func mutatingCall(field, method string) bool {
 	}
 }
 
+// envPtrNames: the names under which functions of the env package receive a
+// *Env (receivers and parameters).  `*name` used as a value copies the whole
+// scope, tables and lock included: a read of everything the lock guards.
+var envPtrNames = map[string]bool{}
+
 func collectEnvFields(af *ast.File) {
 	for _, d := range af.Decls {
-		if fd, ok := d.(*ast.FuncDecl); ok && fd.Recv != nil && len(fd.Recv.List) == 1 {
-			if st, ok := fd.Recv.List[0].Type.(*ast.StarExpr); ok {
-				envPtrMethods[typeText(st.X)+"."+fd.Name.Name] = true
+		fd, ok := d.(*ast.FuncDecl)
+		if !ok {
+			continue
+		}
+		var lists []*ast.FieldList
+		if fd.Recv != nil {
+			lists = append(lists, fd.Recv)
+			if len(fd.Recv.List) == 1 {
+				if st, ok := fd.Recv.List[0].Type.(*ast.StarExpr); ok {
+					envPtrMethods[typeText(st.X)+"."+fd.Name.Name] = true
+				}
+			}
+		}
+		if fd.Type.Params != nil {
+			lists = append(lists, fd.Type.Params)
+		}
+		for _, l := range lists {
+			for _, f := range l.List {
+				if typeText(f.Type) == "*Env" {
+					for _, nm := range f.Names {
+						envPtrNames[nm.Name] = true
+					}
+				}
 			}
 		}
 	}
@@ -424,6 +449,13 @@ func rewriteEnv(fset *token.FileSet, af *ast.File, total map[string]int) int {
 								}
 							}
 						}
+					}
+				}
+				if st, ok := nd.(*ast.StarExpr); ok {
+					// `*e` as a value: the whole scope is read (tables and lock included)
+					if id, ok := st.X.(*ast.Ident); ok && envPtrNames[id.Name] {
+						res = append(res, acc{id, false, st.Pos(), ""})
+						total["env.structcopy"]++
 					}
 				}
 				if u, ok := nd.(*ast.UnaryExpr); ok && u.Op == token.AND {
